@@ -744,9 +744,42 @@ pub fn run_workload(sub: u64, only_leg: Option<&str>, acc: &mut Acc, ctx: &Ctx, 
         }
     }
 
+    // ---- flag wiring: a flag followed by its negation is no flag; the last one wins ------
+    if want("flag-wiring") && rng.chance(1, 2) {
+        // (positive spelling, negation); the negation restores the default
+        const PAIRS: [(&[&str], &str); 26] = [
+            (&["--binary"], "--no-binary"), (&["-a"], "--no-text"), (&["--text"], "--no-text"), (&["--crlf"], "--no-crlf"), (&["-U"], "--no-multiline"),
+            (&["-U", "--multiline-dotall"], "--no-multiline-dotall"), (&["-L"], "--no-follow"), (&["--one-file-system"], "--no-one-file-system"), (&["-z"], "--no-search-zip"),
+            (&["--pre", "/verif/target/release/childstub"], "--no-pre"), (&["-E", "latin1"], "--no-encoding"), (&["--encoding=utf-16le"], "--no-encoding"), (&["--hidden"], "--no-hidden"),
+            (&["--trim"], "--no-trim"), (&["--column"], "--no-column"), (&["-b"], "--no-byte-offset"), (&["--stats"], "--no-stats"), (&["--json"], "--no-json"),
+            (&["-F"], "--no-fixed-strings"), (&["-v"], "--no-invert-match"), (&["-c", "--include-zero"], "--no-include-zero"), (&["--max-columns=20", "--max-columns-preview"], "--no-max-columns-preview"),
+            (&["--no-ignore"], "--ignore"), (&["--no-messages"], "--messages"), (&["--mmap"], "--no-mmap"), (&["--line-buffered"], "--no-line-buffered"),
+        ];
+        let (pos, neg) = PAIRS[rng.below(PAIRS.len())];
+        let base: Vec<String> = ["--no-config", "--color=never", "-j1", "--sort=path", "-n"].iter().map(|s| s.to_string()).collect();
+        let tail: Vec<String> = vec!["foo".into(), "w".into()];
+        // what precedes the pair in `pos` stays in both commands (e.g. -U for --multiline-dotall)
+        let (keep, flag) = pos.split_at(pos.len() - if pos[0].starts_with("--pre") || pos[0] == "-E" { 2 } else { 1 });
+        let mk2 = |mid: Vec<&str>| -> Vec<String> { base.iter().cloned().chain(keep.iter().map(|s| s.to_string())).chain(mid.iter().map(|s| s.to_string())).chain(tail.iter().cloned()).collect() };
+        let cmds = [
+            ("flag then negation", mk2(flag.iter().cloned().chain([neg]).collect()), mk2(vec![])),
+            ("negation then flag", mk2([neg].into_iter().chain(flag.iter().cloned()).collect()), mk2(flag.to_vec())),
+        ];
+        for (what, a, b) in cmds {
+            let ra = ctx.run(&cwd, &RunSpec { args: a.clone(), plan: vec!["noop=1".into()], ..RunSpec::default() }, 30);
+            let rb = ctx.run(&cwd, &RunSpec { args: b.clone(), plan: vec!["noop=1".into()], ..RunSpec::default() }, 30);
+            acc.evals += 2;
+            acc.faults.inc("flag-wiring-pair");
+            digest = digest_out(digest_out(digest, &ra), &rb);
+            if mask_times(&ra.stdout) != mask_times(&rb.stdout) || ra.code != rb.code || ra.stderr != rb.stderr {
+                acc.violation("C15", "flag-wiring", format!("{what}: rg {:?} (exit {}, {} bytes) differs from rg {:?} (exit {}, {} bytes)", a, ra.code, ra.stdout.len(), b, rb.code, rb.stdout.len()), sub, replay_body(sub, &w, "flag-wiring", &RunSpec { args: a.clone(), ..RunSpec::default() }, Some(&rb), &ra, json!({"equivalent_command": b})));
+            }
+        }
+    }
+
     // ---- invalid arguments --------------------------------------------------------
     if want("invalid-args") && rng.chance(1, 2) {
-        let bad: [(&str, Vec<&str>); 23] = [
+        let bad: [(&str, Vec<&str>); 29] = [
             // a pattern that names the NUL byte while binary detection is on (line and multi-line mode)
             ("invalid-regex", vec!["foo\\x00", "w"]),
             ("invalid-regex", vec!["-U", "foo\\x00?", "w"]),
@@ -772,6 +805,13 @@ pub fn run_workload(sub: u64, only_leg: Option<&str>, acc: &mut Acc, ctx: &Ctx, 
             ("invalid-flag", vec!["--sort=bogus", "foo", "w"]),
             ("invalid-flag", vec!["--max-filesize=1Q", "foo", "w"]),
             ("invalid-flag", vec!["--colors=bogus", "foo", "w"]),
+            // an invalid value is an error also when the flag it belongs to ends up unused
+            ("invalid-glob", vec!["--pre-glob", "{a", "foo", "w"]),
+            ("invalid-glob", vec!["--pre", "cat", "--no-pre", "--pre-glob", "[", "foo", "w"]),
+            ("invalid-glob", vec!["--pre-glob", "[", "--pre=", "foo", "w"]),
+            ("invalid-glob", vec!["--pre", "cat", "--pre-glob", "[a", "-z", "foo", "w"]),
+            ("invalid-encoding", vec!["-E", "no-such-encoding", "--no-encoding", "foo", "w"]),
+            ("invalid-glob", vec!["-g", "{a", "--files", "w"]),
         ];
         let (name, extra) = &bad[rng.below(bad.len())];
         let spec = RunSpec { args: ["--no-config", "--color=never", &format!("-j{}", w.threads)].iter().map(|s| s.to_string()).chain(extra.iter().map(|s| s.to_string())).collect(), plan: vec!["noop=1".into()], sched: w.sched.clone(), ..RunSpec::default() };
